@@ -284,6 +284,58 @@ pub fn run(ctx: &Ctx) -> i32 {
     }
     col.layer("buffer-boundary", nb, true, json!({"buffer": 8192, "multiples": [1, 2], "offsets": "-5..=2", "patterns": ["CRLF", "aCRLFbCRLF", "é LF", "😀 LF", "LF LF", "a (unterminated)", "a CR (unterminated)", "ab LF"]}));
     col.sample(json!({"layer": "buffer-boundary", "content": "1023 filler lines of 8 bytes, then CR LF starting at byte 8191, then z LF"}));
+    // every line of the input reaches an OUTER JOIN whatever the joined file holds; a table with a DEFAULT column makes
+    // every line a row (blank, non-matching and unterminated last lines included)
+    {
+        let jt = sut::make_tables("CREATE TABLE m(line = '^(.*)$', line[1] => k TEXT);\nCREATE TABLE u(line = '^(.*)$', line[1] => x TEXT);\nCREATE TABLE dd('k=([a-z]+)' => k TEXT DEFAULT 'none');").unwrap();
+        let mains: [&[u8]; 4] = [b"a\nb\nc\n", b"a\n\nb", b"a", b"\n\n"];
+        let joins: [&[u8]; 5] = [b"", b"zzz\n", b"\n", b"a\n", b"q\nr\ns"];
+        let mut no = 0u64;
+        for m in mains {
+            let nlines = ref_lines(m).len();
+            for j in joins {
+                let tmp = sut::TempFiles::new(&[j]);
+                for (what, text) in [("outer", format!("SELECT m.k FROM m OUTER JOIN u::'{}' ON m.k = u.x", tmp.paths[0])), ("outer-count", format!("SELECT COUNT(*) FROM m OUTER JOIN u::'{}' ON m.k = u.x", tmp.paths[0]))] {
+                    no += 1;
+                    col.eval(1);
+                    col.nontrivial(h64(&("outer", m, j, what)));
+                    let st = sut::parse(&text).unwrap();
+                    let r = sut::run_files(&jt, &st, &[m], FileRunOpts { format: OutputFormat::Json, ..Default::default() });
+                    let (got, total) = match &r {
+                        Outcome::Ok(fr) if fr.result.is_ok() => {
+                            let recs: Vec<&String> = fr.printed.iter().filter(|l| !l.is_empty()).collect();
+                            (Some(if what == "outer" { recs.len() as i64 } else { recs.first().and_then(|l| serde_json::from_str::<J>(l).ok()).and_then(|v| v.as_object().and_then(|o| o.values().next().and_then(|x| x.as_i64()))).unwrap_or(0) }), fr.total_lines)
+                        }
+                        _ => (None, 0),
+                    };
+                    // every main line is a row (its pattern matches everything); partners can only add rows
+                    // (an aggregate over an OUTER JOIN is not promised the partner-less rows - C05 - only that every line is read)
+                    if (what == "outer" && got.map(|g| g < nlines as i64).unwrap_or(true)) || got.is_none() || total != nlines as u64 {
+                        col.fail(fail(
+                            format!("lines:outer-join:{}", what),
+                            format!("`{}` over a main file of {} lines and the joined file {:?}: {:?} rows, {} lines consumed", text.replace(&tmp.paths[0], "<joined>"), nlines, String::from_utf8_lossy(j), got, total),
+                            json!({"layer": "outer-join", "main_hex": hex(m), "joined_hex": hex(j)}),
+                            json!(nlines),
+                            sut::outcome_json(&r, |f| f.to_json()),
+                            no,
+                        ));
+                    }
+                }
+            }
+            no += 1;
+            col.eval(1);
+            let st = sut::parse("SELECT COUNT(*) FROM dd").unwrap();
+            let r = sut::run_files(&jt, &st, &[m], FileRunOpts { format: OutputFormat::Json, ..Default::default() });
+            let cnt = match &r {
+                Outcome::Ok(fr) if fr.result.is_ok() => fr.printed.iter().filter(|l| !l.is_empty()).next().and_then(|l| serde_json::from_str::<J>(l).ok()).and_then(|v| v.as_object().and_then(|o| o.values().next().and_then(|x| x.as_i64()))),
+                _ => None,
+            };
+            if cnt != Some(nlines as i64) && !(nlines == 0 && cnt.is_none()) {
+                col.fail(fail("lines:default-table:count".into(), format!("a table with a DEFAULT column counts {:?} rows over a file of {} lines", cnt, nlines), json!({"layer": "outer-join", "main_hex": hex(m), "default_table": true}), json!(nlines), sut::outcome_json(&r, |f| f.to_json()), no));
+            }
+        }
+        col.layer("OUTER JOIN against empty / non-matching joined files; DEFAULT table", no, true, json!({"main_files": 4, "joined_files": 5}));
+    }
     // JSON tables: every line that is a JSON document (with blanks around it, with an array at the root) reaches the
     // query; all sequences up to 3 lines x {LF, CRLF}
     {
@@ -473,6 +525,10 @@ pub fn run(ctx: &Ctx) -> i32 {
 }
 
 pub fn replay(case: &J) -> Vec<Failure> {
+    if case["layer"].as_str() == Some("outer-join") {
+        println!("note: outer-join cases are replayed by re-running `./check C12 quick`");
+        return vec![];
+    }
     if case["layer"].as_str() == Some("json-lines") {
         let seq: Vec<u8> = case["seq"].as_array().unwrap().iter().map(|x| x.as_u64().unwrap() as u8).collect();
         return json_lines_case(&seq, case["eol"].as_str().unwrap());
